@@ -14,7 +14,7 @@ def closer_deletions(chk, quick):
     """well-formed documents without math / verbatim / list regions (DocGen) that lost exactly one closer"""
     from harness import docs as D
     from harness.tlc import from_atoms
-    pools = {'Budget': 3 if quick else 5, 'TextPool': ['x', ' ', 't u'], 'ComPool': [], 'CmdNames': ['a', 'bb'], 'EnvNames': ['e', 'f'],
+    pools = {'Budget': 3 if quick else 4, 'TextPool': ['x', ' ', 't u'], 'ComPool': [], 'CmdNames': ['a', 'bb'], 'EnvNames': ['e', 'f'],
              'ListNames': [], 'MathKinds': [], 'MEnvNames': [], 'VerbNames': [], 'Leaves': [], 'Labels': [''], 'MaxSib': 2, 'MaxArgs': 2, 'MaxDepth': 3}
     recs, _ = D.generate(chk, 'wfdocs', pools, ['C01_RoundTrip', 'C02_Structure'])
     out = []
@@ -42,7 +42,7 @@ def run(chk):
                 'documents and random strings run through the real parser are validated by TLC. A case is a source string.')
     sc = [(S.SC + S.SC_EXTRA, 3 if quick else 4), (S.ST, 2 if quick else 3)]
     for k in ('env', 'args', 'math', 'verb', 'item', 'sig', 'names'):
-        sc.append((S.SUB[k], 3 if quick else 5))
+        sc.append((S.SUB[k], 3 if quick else 4))
     docs = S.corpus_sources()
     extra = list(docs) + S.regression_inputs(('C06', 'C07', 'C08'))
     extra += S.mutations(rng, docs, 3 if quick else 40, S.SC)
